@@ -10,7 +10,8 @@ from . import source as S
 
 
 class LoopSpec:
-    def __init__(self, invariant=None, types=None, label=None, havoc_fields=(), variant=None, unroll=None, ghost_update=None, ghost_havoc=None):
+    def __init__(self, invariant=None, types=None, label=None, havoc_fields=(), variant=None, unroll=None, ghost_update=None, ghost_havoc=None, hints=None):
+        self.hints = hints  # callable(LoopCtx) -> list of formulas: ground instances of assumed (definitional) axioms
         self.ghost_havoc = ghost_havoc  # callable(ex): havoc the ghost state the loop changes
         self.ghost_update = ghost_update  # callable(LoopCtx): runs at the end of each iteration (ghost code)
         self.invariant = invariant  # callable(LoopCtx) -> z3 Bool (or list of (name, Bool))
@@ -374,9 +375,15 @@ class StmtMixin:
         except Exception as e:  # the invariant does not fit this loop's shape (refactored code): undecided, never a violation
             raise OutOfSubset(f"loop invariant `{spec.label}` not evaluable on the loop at line {self.cur_line}: {type(e).__name__}: {e}")
 
+    def add_hints(self, spec, lc):
+        if spec is not None and spec.hints is not None:
+            for f in spec.hints(lc):
+                self.assume(f)
+
     def check_inv(self, spec, lc, oid_base, kind):
         if spec is None or spec.invariant is None:
             return
+        self.add_hints(spec, lc)
         res = self.eval_inv(spec, lc)
         items = res if isinstance(res, list) else [("inv", res)]
         for nm, f in items:
@@ -385,6 +392,7 @@ class StmtMixin:
     def assume_inv(self, spec, lc):
         if spec is None or spec.invariant is None:
             return
+        self.add_hints(spec, lc)
         res = self.eval_inv(spec, lc)
         items = res if isinstance(res, list) else [("inv", res)]
         for _, f in items:
